@@ -841,8 +841,20 @@ func (f *Flooder) cleanup() {
 
 	// Cleanup sleep command cache
 	f.sleepCmdMu.Lock()
-	f.cleanupSleepCmdCache(now, expiry)
+	f.cleanupSleepCmdCache(now, f.sleepCmdRetention())
 	f.sleepCmdMu.Unlock()
+}
+
+// sleepCmdRetention returns how long a seen sleep/wake command is remembered.
+// A command stamped t verifies while |now-t| <= timestampWindow, so an entry
+// recorded at the earliest acceptance (t - window) must survive until
+// t + window: twice the window, and never less than the general cache TTL.
+func (f *Flooder) sleepCmdRetention() time.Duration {
+	retention := 2 * f.timestampWindow
+	if f.cfg.SeenCacheTTL > retention {
+		retention = f.cfg.SeenCacheTTL
+	}
+	return retention
 }
 
 // cleanupSeenCache removes expired entries from the seen cache.
